@@ -100,12 +100,15 @@ static int mu_try_acquire_after_timeout_or_cancel (nsync_mu *mu, lock_type *l_ty
 		mu->waiters = nsync_remove_from_mu_queue_ (mu->waiters, &w->nw.q);
 		ATM_STORE (&w->nw.waiting, 0);
 
-		/* Release spinlock but keep desired lock type. */
-		ATM_STORE_REL (&mu->word, old_word+l_type->add_to_acquire); /* release store */
+		/* Release spinlock but keep desired lock type.  The bits in
+		   MU_WCLEAR_ON_ACQUIRE were cleared by the CAS above, and
+		   must stay cleared:  old_word was loaded before that CAS. */
+		ATM_STORE_REL (&mu->word, (old_word & ~MU_WCLEAR_ON_ACQUIRE) +
+					  l_type->add_to_acquire); /* release store */
 		success = 1;
 	} else {
 		/* Release spinlock and *mu. */
-		ATM_STORE_REL (&mu->word, old_word); /* release store */
+		ATM_STORE_REL (&mu->word, old_word & ~MU_WCLEAR_ON_ACQUIRE); /* release store */
 	}
 	RWLOCK_TRYACQUIRE (success, mu, l_type == nsync_writer_type_);
 	return (success);
